@@ -30,16 +30,30 @@ Record hent := mkH { h_sec : N; h_k : N; h_content : bytes; h_skipped : bytes; h
 (* a rotated file is <path>.<second> (k = 0) or <path>.<second>.<k> *)
 Definition rname := (N * N)%type.
 
+(* the part of the world the writer does not control, and its descriptor:
+   [e_dir]  is the directory of <path> reachable (false: renamed away, unmounted, replaced by a file:
+            Stat(path) and OpenFile(path, O_CREATE) both fail);
+   [e_fd]   what the open descriptor f.f refers to: the file that is at <path>, or a file that is not
+            there any more (somebody removed or renamed it while it was open);
+   [e_lost] ghost: bytes written through a descriptor of the second kind (they reach no log file) *)
+Inductive fdst := FdAtPath | FdDetached.
+Record env := mkEnv { e_dir : bool; e_fd : fdst; e_lost : bytes }.
+
 Record rf := mkRF {
   rf_max : Z;
   rf_pos : Z;
-  rf_exists : bool;                 (* does <path> exist *)
+  rf_exists : bool;                 (* is there a file at <path> (in its directory, reachable or not) *)
   rf_cur : bytes;                   (* content of <path> ([] when it does not exist) *)
   rf_rot : list (rname * bytes);    (* rotated files, in order of creation *)
   rf_hist : list hent;              (* ghost *)
   rf_moved : list bytes;
-  rf_gone : list bytes
+  rf_gone : list bytes;
+  rf_env : env
 }.
+Definition rf_dir (st : rf) : bool := e_dir (rf_env st).
+Definition rf_fd (st : rf) : fdst := e_fd (rf_env st).
+Definition rf_lost (st : rf) : bytes := e_lost (rf_env st).
+Definition fd_at_path (st : rf) : env := mkEnv (rf_dir st) FdAtPath (rf_lost st).
 
 (* "name := path.ts; for i := 1; ; i++ { if Lstat(name) fails break; name = path.ts.i }":
    the first k = 0, 1, 2, ... whose name does not exist.  Evaluated by striking each name found
@@ -74,20 +88,30 @@ Definition rotate (s : N) (skipped : bytes) (kd : rkind) (st : rf) : rf :=
   mkRF (rf_max st) 0 true []
        (rf_rot st ++ [((s, k), rf_cur st)])
        (rf_hist st ++ [mkH s k (rf_cur st) skipped kd])
-       (rf_moved st) (rf_gone st).
+       (rf_moved st) (rf_gone st) (fd_at_path st).
 
 (* reopen(): OpenFile(path, O_CREATE|O_WRONLY), pos = 0.  Called by Write only when Stat
-   failed, i.e. the path does not exist: a fresh empty file. *)
+   failed; with the directory reachable that means the path does not exist: a fresh empty file,
+   and the descriptor now refers to it.  (With the directory unreachable OpenFile fails and f.f,
+   f.pos stay as they are: see rf_write.) *)
 Definition reopen (st : rf) : rf :=
-  mkRF (rf_max st) 0 true [] (rf_rot st) (rf_hist st) (rf_moved st) (rf_gone st).
+  mkRF (rf_max st) 0 true [] (rf_rot st) (rf_hist st) (rf_moved st) (rf_gone st) (fd_at_path st).
 
-(* f.f.Write(b) on the active file (does not touch pos) *)
+(* f.f.Write(b) through the descriptor (does not touch pos): the bytes go to the file the
+   descriptor refers to *)
 Definition put (st : rf) (b : bytes) : rf :=
-  mkRF (rf_max st) (rf_pos st) (rf_exists st) (rf_cur st ++ b)
-       (rf_rot st) (rf_hist st) (rf_moved st) (rf_gone st).
+  match rf_fd st with
+  | FdAtPath =>
+      mkRF (rf_max st) (rf_pos st) (rf_exists st) (rf_cur st ++ b)
+           (rf_rot st) (rf_hist st) (rf_moved st) (rf_gone st) (rf_env st)
+  | FdDetached =>
+      mkRF (rf_max st) (rf_pos st) (rf_exists st) (rf_cur st)
+           (rf_rot st) (rf_hist st) (rf_moved st) (rf_gone st)
+           (mkEnv (rf_dir st) FdDetached (rf_lost st ++ b))
+  end.
 
 Definition set_pos (st : rf) (z : Z) : rf :=
-  mkRF (rf_max st) z (rf_exists st) (rf_cur st) (rf_rot st) (rf_hist st) (rf_moved st) (rf_gone st).
+  mkRF (rf_max st) z (rf_exists st) (rf_cur st) (rf_rot st) (rf_hist st) (rf_moved st) (rf_gone st) (rf_env st).
 
 (* the window scan "for ; j > 0; j-- { if p[j] == '\n' break }" over l = p[1..j]:
    split l at its LAST newline; None = the scan reached 0 *)
@@ -132,6 +156,7 @@ Definition exceeds (p : bytes) (k : Z) : bool := if k <? 0 then true else longer
 
 Inductive wres :=
 | WOk (st : rf) (n : Z)      (* returned (n, nil) *)
+| WErr (st : rf)             (* returned (0, err): Stat and reopen failed, nothing was written *)
 | WPanic                      (* index / slice bounds out of range *)
 | WFuel.
 
@@ -179,52 +204,74 @@ Fixpoint write_loop (fuel : nat) (clk : nat -> N) (i : nat) (st : rf) (p : bytes
     end
   else final.
 
-(* Write(p): Stat(path) failed => reopen; then the loop *)
+(* Write(p): Stat(path) failed => reopen; then the loop.  With the directory unreachable both
+   fail: the error is returned, descriptor and position are kept *)
 Definition rf_write (clk : nat -> N) (st : rf) (p : bytes) : wres :=
-  let st0 := if rf_exists st then st else reopen st in
-  write_loop (S (S (2 * length p))) clk 0 st0 p 0.
+  if rf_dir st then
+    let st0 := if rf_exists st then st else reopen st in
+    write_loop (S (S (2 * length p))) clk 0 st0 p 0
+  else WErr st.
 
 (* OpenRotateFile(path, mode, max) on whatever is at path: create if missing, seek to the
    end, rotate at once when offset >= max *)
 Definition rf_reopen (s : N) (st : rf) : rf :=
   let st1 := mkRF (rf_max st) (zlen (rf_cur st)) true (rf_cur st)
-                  (rf_rot st) (rf_hist st) (rf_moved st) (rf_gone st) in
+                  (rf_rot st) (rf_hist st) (rf_moved st) (rf_gone st) (fd_at_path st) in
   if rf_pos st1 <? rf_max st1 then st1 else rotate s [] ROpen st1.
 
 Definition rf_open (max : Z) (s : N) (init : bytes) : rf :=
-  rf_reopen s (mkRF max 0 true init [] [] [] []).
+  rf_reopen s (mkRF max 0 true init [] [] [] [] (mkEnv true FdAtPath [])).
 
 (* ---- histories ---- *)
 Inductive op :=
 | OWrite (clk : nat -> N) (p : bytes)
 | ORemove                    (* someone removes <path> *)
 | OMove                      (* someone renames <path> away (logrotate style) *)
-| OReopen (s : N).           (* Close + OpenRotateFile: the process restarts *)
+| OReopen (s : N)            (* Close + OpenRotateFile: the process restarts *)
+| ODirAway                   (* the directory of <path> becomes unreachable (renamed away, unmounted,
+                                a regular file put in its place); what it holds is kept *)
+| ODirBack.                  (* ... and comes back as it was *)
 
+(* the file is removed / renamed while the writer holds it open: its descriptor keeps referring
+   to that file, which is not at <path> any more.  Nothing happens when the path is not reachable
+   or does not exist. *)
 Definition ext_remove (st : rf) : rf :=
-  if rf_exists st then
+  if rf_dir st && rf_exists st then
     mkRF (rf_max st) (rf_pos st) false [] (rf_rot st)
          (rf_hist st ++ [mkH 0 0 (rf_cur st) [] RGone]) (rf_moved st) (rf_gone st ++ [rf_cur st])
+         (mkEnv (rf_dir st) FdDetached (rf_lost st))
   else st.
 
 Definition ext_move (st : rf) : rf :=
-  if rf_exists st then
+  if rf_dir st && rf_exists st then
     mkRF (rf_max st) (rf_pos st) false [] (rf_rot st)
          (rf_hist st ++ [mkH 0 0 (rf_cur st) [] RMoved]) (rf_moved st ++ [rf_cur st]) (rf_gone st)
+         (mkEnv (rf_dir st) FdDetached (rf_lost st))
   else st.
 
-(* result of a history: final state and the values Write returned *)
-Fixpoint run (st : rf) (rets : list Z) (ops : list op) : option (rf * list Z) :=
+Definition ext_dir (b : bool) (st : rf) : rf :=
+  mkRF (rf_max st) (rf_pos st) (rf_exists st) (rf_cur st) (rf_rot st) (rf_hist st) (rf_moved st) (rf_gone st)
+       (mkEnv b (rf_fd st) (rf_lost st)).
+
+(* a restart while the directory is unreachable: OpenRotateFile fails, there is no writer; the
+   histories considered restart only while it is reachable (nothing happens otherwise) *)
+Definition ext_restart (s : N) (st : rf) : rf := if rf_dir st then rf_reopen s st else st.
+
+(* result of a history: final state and what each Write returned (None = an error) *)
+Fixpoint run (st : rf) (rets : list (option Z)) (ops : list op) : option (rf * list (option Z)) :=
   match ops with
   | [] => Some (st, rets)
   | OWrite clk p :: r =>
       match rf_write clk st p with
-      | WOk st' n => run st' (rets ++ [n]) r
+      | WOk st' n => run st' (rets ++ [Some n]) r
+      | WErr st' => run st' (rets ++ [None]) r
       | _ => None
       end
   | ORemove :: r => run (ext_remove st) rets r
   | OMove :: r => run (ext_move st) rets r
-  | OReopen s :: r => run (rf_reopen s st) rets r
+  | OReopen s :: r => run (ext_restart s st) rets r
+  | ODirAway :: r => run (ext_dir false st) rets r
+  | ODirBack :: r => run (ext_dir true st) rets r
   end.
 
 (* ---- what the property talks about ---- *)
@@ -241,13 +288,17 @@ Fixpoint lines_of (b : bytes) : list bytes :=
            end
   end.
 
-(* everything the writer was given, in order *)
-Fixpoint written_of (ops : list op) : bytes :=
+(* everything the writer was given while its destination was reachable, in order
+   ([d] = is the directory reachable at the start of [ops]) *)
+Fixpoint accepted (d : bool) (ops : list op) : bytes :=
   match ops with
   | [] => []
-  | OWrite _ p :: r => p ++ written_of r
-  | _ :: r => written_of r
+  | OWrite _ p :: r => if d then p ++ accepted d r else accepted d r
+  | ODirAway :: r => accepted false r
+  | ODirBack :: r => accepted true r
+  | _ :: r => accepted d r
   end.
+Definition written_of (ops : list op) : bytes := accepted true ops.
 
 Definition no_ext (ops : list op) : bool :=
   forallb (fun o => match o with ORemove | OMove => false | _ => true end) ops.
@@ -278,41 +329,74 @@ Definition batch_of (ls : list bytes) : bytes := concat (map term ls).
 (* ---- file.go: writeLoop + Send ---- *)
 Definition FLUSH_BYTES : Z := 500 * 1024.
 
+(* what happens to the destination from outside *)
+Inductive fault := FRemove | FMove | FDirAway | FDirBack.
+Definition apply_fault (f : fault) (st : rf) : rf :=
+  match f with
+  | FRemove => ext_remove st
+  | FMove => ext_move st
+  | FDirAway => ext_dir false st
+  | FDirBack => ext_dir true st
+  end.
+
 (* what the writer goroutine sees.  [clk g] = the wall-clock second read by the g-th rotation
    since the channel's directory was empty (used only if this event makes the loop flush) *)
 Inductive wev :=
 | ESend (clk : nat -> N) (line : bytes)   (* a request arrives (already encoded: line ++ "\n") *)
-| EIdle (clk : nat -> N).                 (* one second without a request *)
+| EBad                                    (* a request arrives that json.Encoder rejects (NaN, chan, func ...) *)
+| EIdle (clk : nat -> N)                  (* one second without a request *)
+| EFault (clk : nat -> N) (f : fault).    (* a second without a request passes, then the fault happens
+                                             (faults hit a quiescent channel) *)
 
 (* the buffer is kept as the list of encoded requests (oldest first) with its length.
    The writer goroutine is started by New with the destination already open and leaves its loop
    only when the request channel is closed: every request sent is received (Send returns). *)
 Record wl := mkWL { wl_rf : rf; wl_buf : list bytes; wl_len : Z }.
 
-(* None = Write did not return normally *)
+(* io.Copy(dest, &buf); buf.Reset(): an error of Write is logged, the batch is dropped.
+   None = Write did not return *)
 Definition wl_flush (clk : nat -> N) (w : wl) : option wl :=
   match wl_buf w with
   | [] => Some w                       (* io.Copy of an empty buffer performs no Write *)
   | _ => match rf_write (fun i => clk (length (rf_hist (wl_rf w)) + i)%nat) (wl_rf w) (concat (wl_buf w)) with
          | WOk st _ => Some (mkWL st [] 0)
+         | WErr st => Some (mkWL st [] 0)
          | _ => None
          end
   end.
 
 (* one turn of the select: the request is received (the sender goes on) and encoded into the
-   buffer, flushed at 500 KiB; or a second passes without request and the buffer is flushed *)
+   buffer, flushed at 500 KiB; an encode error leaves the buffer as it is (Encoder.Encode writes
+   only after marshalling succeeded) and goes back to the select; or a second passes without
+   request and the buffer is flushed *)
 Definition wl_step (w : wl) (e : wev) : option wl :=
   match e with
   | ESend s line =>
       let w1 := mkWL (wl_rf w) (wl_buf w ++ [line]) (wl_len w + zlen line) in
       if wl_len w1 <? FLUSH_BYTES then Some w1 else wl_flush s w1
+  | EBad => Some w
   | EIdle s => wl_flush s w
+  | EFault s f =>
+      match wl_flush s w with
+      | Some w1 => Some (mkWL (apply_fault f (wl_rf w1)) (wl_buf w1) (wl_len w1))
+      | None => None
+      end
   end.
 
 Fixpoint wl_run (w : wl) (es : list wev) : option wl :=
   match es with
   | [] => Some w
   | e :: r => match wl_step w e with Some w' => wl_run w' r | None => None end
+  end.
+
+(* the lines the channel accepted while its destination was reachable *)
+Fixpoint wl_accepted (d : bool) (es : list wev) : bytes :=
+  match es with
+  | [] => []
+  | ESend _ line :: r => if d then line ++ wl_accepted d r else wl_accepted d r
+  | EFault _ FDirAway :: r => wl_accepted false r
+  | EFault _ FDirBack :: r => wl_accepted true r
+  | _ :: r => wl_accepted d r
   end.
 
 (* New(): MaxSize >= 1024 required; the destination is opened here; None = New returned an
